@@ -63,9 +63,7 @@ theorem new_wf_some (t : Array Int) (rows : Array Nat) (p : Array (Int × Int))
   simp only
   split
   · exact ⟨by intro i j hi; simp at hi, rfl, ⟨by simp, by simp⟩, by intro i h; simp at h⟩
-  · split
-    · exact ⟨by intro i j hi; simp at hi, rfl, ⟨by simp, by simp⟩, by intro i h; simp at h⟩
-    have hs := sortArr_sorted t
+  · have hs := sortArr_sorted t
     have hcan := canon_of_canonicalPairs p hc
     have hinc := jitrestrict_inc (sortArr t) (pairsSt p) (pairsEn p) (pairs_size p)
     refine ⟨gatherI_sorted _ _ hs hinc.1 hinc.2, by simp [gatherI, gatherN], hc, ?_⟩
